@@ -57,6 +57,7 @@ Qed.
 (* ------------------------------------------------------------------------------------------------ *)
 
 Section ExecProofs.
+  Variable names : list named.
   Variable A : list flow.
   Variable pick : N -> N -> nat -> option N.
   Variable act : N -> N -> nat -> nat -> act_outcome.
@@ -90,11 +91,11 @@ Section ExecProofs.
   Definition step_inv (o : ostep) : Prop :=
     exists f n, lookup_flow A (os_flow o) = Some f /\ lookup_node f (os_node o) = Some n
       /\ match_saves (node_emitters n (os_exit o)) (os_saved o) = true
-      /\ touched_ok n (os_touched o) = true
+      /\ touched_ok names n (os_touched o) = true
       /\ exit_ok n o = true
       /\ (os_exit o = None -> match_saves (map action_can_save (n_actions n)) (os_saved o) = true).
 
-  Lemma step_inv_facts : forall o, step_inv o -> exists f n, step_facts A o f n.
+  Lemma step_inv_facts : forall o, step_inv o -> exists f n, step_facts names A o f n.
   Proof.
     intros o [f [n [Hf [Hn [Hs [Ht [He _]]]]]]]. exists f, n. constructor; try assumption.
     apply lookup_node_In with (id := os_node o). exact Hn.
@@ -104,13 +105,14 @@ Section ExecProofs.
     lookup_flow A fid = Some f -> lookup_node f nid = Some n ->
     step_inv {| os_run := r; os_parent := parent; os_flow := fid; os_node := nid;
                 os_saved := act_saves act fid nid t 0 (n_actions n);
-                os_touched := filter (touch fid nid t) (node_asset_refs n); os_exit := None; os_resumed := false |}.
+                os_touched := filter (touch fid nid t) (node_asset_refs n ++ node_implicit_refs names n); os_exit := None; os_resumed := false |}.
   Proof.
     intros r parent fid nid t f n Hf Hn. exists f, n. cbn [os_flow os_node os_exit os_saved os_touched].
     split; [exact Hf|]. split; [exact Hn|]. split.
     - unfold node_emitters. apply match_saves_app_l. apply act_saves_match.
     - split.
-      + unfold touched_ok. apply forallb_forall. intros x Hx. apply filter_In in Hx. apply ref_in_In. apply Hx.
+      + unfold touched_ok. apply forallb_forall. intros x Hx. apply filter_In in Hx. destruct Hx as [Hx _].
+        apply orb_true_iff. apply in_app_or in Hx. destruct Hx as [Hx|Hx]; [left | right]; apply ref_in_In; exact Hx.
       + split; [reflexivity|]. intros _. apply act_saves_match.
   Qed.
 
@@ -118,7 +120,7 @@ Section ExecProofs.
     lookup_flow A (os_flow o) = Some f -> lookup_node f (os_node o) = Some n ->
     os_exit o = None ->
     match_saves (map action_can_save (n_actions n)) (os_saved o) = true ->
-    touched_ok n (os_touched o) = true ->
+    touched_ok names n (os_touched o) = true ->
     negb resumed || node_has_wait n = true ->
     route_step n o choice resumed = Some o' ->
     step_inv o'.
@@ -195,7 +197,7 @@ Section ExecProofs.
     end.
 
   Lemma go_inv : forall fuel st r dest,
-    Forall step_inv (s_steps st) -> Forall step_inv (s_steps (go A pick act touch msg_trigger fuel st r dest)).
+    Forall step_inv (s_steps st) -> Forall step_inv (s_steps (go names A pick act touch msg_trigger fuel st r dest)).
   Proof.
     induction fuel as [|fuel IH]; intros st r dest H; [exact H|].
     cbn [go].
@@ -233,7 +235,7 @@ Section ExecProofs.
   Qed.
 
   Lemma resume_inv : forall fuel st timeout,
-    Forall step_inv (s_steps st) -> Forall step_inv (s_steps (resume A pick act touch msg_trigger fuel st timeout)).
+    Forall step_inv (s_steps st) -> Forall step_inv (s_steps (resume names A pick act touch msg_trigger fuel st timeout)).
   Proof.
     intros fuel st timeout H. unfold resume.
     destruct (s_wait st) as [idx|]; [|exact H].
@@ -251,18 +253,18 @@ Section ExecProofs.
     unfold node_has_wait. rewrite Ert, Ew. reflexivity.
   Qed.
 
-  Lemma start_inv : forall fuel fid, Forall step_inv (s_steps (start A pick act touch msg_trigger fuel fid)).
+  Lemma start_inv : forall fuel fid, Forall step_inv (s_steps (start names A pick act touch msg_trigger fuel fid)).
   Proof.
     intros fuel fid. unfold start. destruct (lookup_flow A fid); [|constructor]. apply go_inv. constructor.
   Qed.
 
   Lemma fold_resume_inv : forall fuel history st,
-    Forall step_inv (s_steps st) -> Forall step_inv (s_steps (fold_left (resume A pick act touch msg_trigger fuel) history st)).
+    Forall step_inv (s_steps st) -> Forall step_inv (s_steps (fold_left (resume names A pick act touch msg_trigger fuel) history st)).
   Proof.
     induction history as [|k history IH]; intros st H; [exact H|]. cbn [fold_left]. apply IH. apply resume_inv. exact H.
   Qed.
 
-  Theorem exec_steps_ok : forall fuel fid history, steps_ok A (exec A pick act touch msg_trigger fuel fid history).
+  Theorem exec_steps_ok : forall fuel fid history, steps_ok names A (exec names A pick act touch msg_trigger fuel fid history).
   Proof.
     intros fuel fid history o Ho. unfold exec in Ho.
     pose proof (fold_resume_inv fuel history _ (start_inv fuel fid)) as H.
@@ -273,20 +275,21 @@ Section ExecProofs.
 
   Theorem engine_results_covered_or_f16 : forall fuel fid history,
     forallb valid_flow A = true ->
-    forall fl nc, In (fl, nc) (saved_results (exec A pick act touch msg_trigger fuel fid history)) ->
+    forall fl nc, In (fl, nc) (saved_results (exec names A pick act touch msg_trigger fuel fid history)) ->
     exists f, lookup_flow A fl = Some f /\ (result_covered f nc \/ saved_by_open_ticket f nc).
-  Proof. intros fuel fid history Hv. apply results_covered_or_f16_steps; [exact Hv | apply exec_steps_ok]. Qed.
+  Proof. intros fuel fid history Hv. apply results_covered_or_f16_steps with (names := names); [exact Hv | apply exec_steps_ok]. Qed.
 
   Theorem engine_waiting_exits : forall fuel fid history,
     forallb valid_flow A = true ->
-    forall fl e, In (fl, e) (resumed_exits (exec A pick act touch msg_trigger fuel fid history)) ->
+    forall fl e, In (fl, e) (resumed_exits (exec names A pick act touch msg_trigger fuel fid history)) ->
     exists f, lookup_flow A fl = Some f /\ In e (waiting_exits f).
-  Proof. intros fuel fid history Hv. apply waiting_exits_listed_steps; [exact Hv | apply exec_steps_ok]. Qed.
+  Proof. intros fuel fid history Hv. apply waiting_exits_listed_steps with (names := names); [exact Hv | apply exec_steps_ok]. Qed.
 
-  Theorem engine_dependencies : forall fuel fid history,
-    forall fl r, In (fl, r) (assets_touched (exec A pick act touch msg_trigger fuel fid history)) ->
-    exists f, lookup_flow A fl = Some f /\ In r (dependencies f) /\ ref_variable r = false.
-  Proof. intros fuel fid history. apply dependencies_listed_steps. apply exec_steps_ok. Qed.
+  Theorem engine_dependencies_or_implicit : forall fuel fid history,
+    forall fl r, In (fl, r) (assets_touched (exec names A pick act touch msg_trigger fuel fid history)) ->
+    exists f, lookup_flow A fl = Some f
+      /\ ((In r (dependencies f) /\ ref_variable r = false) \/ touched_implicitly names f r).
+  Proof. intros fuel fid history. apply dependencies_or_implicit_steps. apply exec_steps_ok. Qed.
 End ExecProofs.
 
 (* ------------------------------------------------------------------------------------------------ *)
@@ -299,12 +302,12 @@ Definition ex_act (_ _ : N) (_ _ : nat) : act_outcome := AOk 0.
 Definition ex_touch (_ _ : N) (_ : nat) (_ : aref) : bool := true.
 
 Example engine_runs :
-  let tr_timeout := exec [ex_parent; ex_child] ex_pick ex_act ex_touch false 20 0 [true] in
-  let tr_msg := exec [ex_parent; ex_child] ex_pick ex_act ex_touch false 20 0 [false] in
+  let tr_timeout := exec [] [ex_parent; ex_child] ex_pick ex_act ex_touch false 20 0 [true] in
+  let tr_msg := exec [] [ex_parent; ex_child] ex_pick ex_act ex_touch false 20 0 [false] in
   List.length tr_timeout = 1%nat /\ resumed_exits tr_timeout = [(0, 2)]
   /\ map snd (saved_results tr_timeout) = [(t "My Result", t "Yes"); (t "Color", t "No Response")]
   /\ List.length tr_msg = 3%nat /\ resumed_exits tr_msg = [(0, 1)]
   /\ map snd (saved_results tr_msg) = [(t "My Result", t "Yes"); (t "Color", t "Other"); (t "Hook", t "Success")]
   /\ List.length (assets_touched tr_msg) = 2%nat
-  /\ accepts [ex_parent; ex_child] tr_msg = true /\ accepts [ex_parent; ex_child] tr_timeout = true.
+  /\ accepts [] [ex_parent; ex_child] tr_msg = true /\ accepts [] [ex_parent; ex_child] tr_timeout = true.
 Proof. vm_compute. repeat split; reflexivity. Qed.
